@@ -590,7 +590,59 @@ func propExtra(prop, tier string, seed int, rep *checkReport) map[string]interfa
 	if prop == "C16" {
 		return boundedC16(rep)
 	}
+	if prop == "C11" {
+		return boundedOverlay(rep, "C11", "c11", "verif_c11_bounded_test.go", "TestVerifBoundedC11", "C11BOUNDED ",
+			"BOUNDED (not counted as proved): the real newEvent driven with families of move records (gaps 0..12, cookies congruent modulo 1/7/10/16/256, every interleaving of two and three moves) and seeded random histories",
+			"newEvent: the old name attached to a Create (rename correlation), judged by an oracle that does not depend on how the cookies are stored")
+	}
 	return nil
+}
+
+// boundedOverlay runs a labelled bounded companion: an in-package test kept under /verif/bounded/<dir>, injected into
+// the tree under check with `go test -overlay`, printing one summary line `<marker>{json with "failures"}`.
+func boundedOverlay(rep *checkReport, prop, dirName, fileName, testName, marker, label, covers string) map[string]interface{} {
+	dir, err := os.MkdirTemp("", "bounded.")
+	if err != nil {
+		rep.undecided = append(rep.undecided, "bounded "+prop+": "+err.Error())
+		return nil
+	}
+	defer os.RemoveAll(dir)
+	ov := filepath.Join(dir, "ov.json")
+	b, _ := json.Marshal(map[string]interface{}{"Replace": map[string]string{
+		filepath.Join(repoDir(), fileName): filepath.Join(verifRoot(), "bounded", dirName, fileName+".txt")}})
+	os.WriteFile(ov, b, 0o644)
+	cmd := exec.Command("go", "test", "-overlay", ov, "-vet=off", "-count=1", "-v", "-timeout", "300s", "-run", "^"+testName+"$", ".")
+	cmd.Dir = repoDir()
+	cmd.Env = append(os.Environ(), "GOFLAGS=-mod=mod", "GOPROXY=off", "GOSUMDB=off", "GOTOOLCHAIN=local")
+	out, _ := cmd.CombinedOutput()
+	var sum map[string]interface{}
+	for _, ln := range strings.Split(string(out), "\n") {
+		if i := strings.Index(ln, marker); i >= 0 {
+			json.Unmarshal([]byte(ln[i+len(marker):]), &sum)
+		}
+	}
+	if sum == nil {
+		rep.undecided = append(rep.undecided, "bounded "+prop+" companion did not run: "+firstLines(string(out), 6))
+		return nil
+	}
+	res := map[string]interface{}{"bounded": map[string]interface{}{"label": label, "covers": covers, "summary": sum}}
+	if fs, ok := sum["failures"].([]interface{}); ok && len(fs) > 0 {
+		evDir := filepath.Join(verifRoot(), "evidence")
+		if d := os.Getenv("VERIF_EVIDENCE_DIR"); d != "" {
+			evDir = d
+		}
+		rdir := filepath.Join(evDir, "replay", prop)
+		os.MkdirAll(rdir, 0o755)
+		for i, f := range fs {
+			path := filepath.Join(rdir, fmt.Sprintf("bounded_%d.replay.json", i))
+			b, _ := json.MarshalIndent(map[string]interface{}{"property": prop, "obligation": "bounded/" + prop + " companion", "failing_input": f,
+				"reproduced_on_real_code": true, "how": "go test -overlay (bounded/" + dirName + "/" + fileName + ".txt injected into the package of the tree under check) -run " + testName}, "", " ")
+			os.WriteFile(path, b, 0o644)
+			rep.violations = append(rep.violations, fmt.Sprintf("VIOLATION property=%s replay=%s", prop, path))
+			fmt.Printf("bounded %s failure: %v\n", prop, f)
+		}
+	}
+	return res
 }
 
 // boundedC16: the real Op.Has / Event.Has / Op.String / Event.String run exhaustively over the low 16 bits of Op
@@ -885,7 +937,7 @@ func runCanaries(prop string, rep *checkReport) map[string]interface{} {
 			cmd.Env = append(os.Environ(), "VERIF_REPO="+dir, "VERIF_EVIDENCE_DIR="+filepath.Join(dir, ".evidence"), "VERIF_TIER=quick")
 			out, _ := cmd.CombinedOutput()
 			for _, ln := range strings.Split(string(out), "\n") {
-				if (strings.HasPrefix(ln, "failed obligation") || strings.HasPrefix(ln, "bounded C20 failure") || strings.HasPrefix(ln, "scenario ")) && strings.Contains(ln, m.Expect) {
+				if (strings.HasPrefix(ln, "failed obligation") || strings.HasPrefix(ln, "bounded C") || strings.HasPrefix(ln, "scenario ")) && strings.Contains(ln, m.Expect) {
 					return "detected"
 				}
 			}
